@@ -1,6 +1,7 @@
 from propcfg.common import COMMON_ASSUME
 
 CFG = {
+    "gen_items": ['Tables/behIdx'],
     "bin": "c04",
     "technique": "Lean 4 proof (induction over the sorted delta; per-variable rule) + differential correspondence",
     "level_text": "Theorems (all inputs, no bound): LayerEnv::apply gives every variable the value of the per-variable CNB rule "
